@@ -209,6 +209,26 @@ def bin_image_clause(model, rep, funcs):
            clause="block sum", stmt="def bin_image sum")
 
 
+def _fill_blocks(fnode, name):
+    """Identities of the statement lists in which container `name` receives an entry (`name.append(..)`, `name[k] = ..`)."""
+    out = set()
+    for node in ast.walk(fnode):
+        for field in ("body", "orelse", "finalbody"):
+            body = getattr(node, field, None)
+            if not isinstance(body, list):
+                continue
+            for st in body:
+                hit = False
+                if isinstance(st, ast.Expr) and isinstance(st.value, ast.Call) and isinstance(st.value.func, ast.Attribute) and st.value.func.attr in ("append", "add") and \
+                        isinstance(st.value.func.value, ast.Name) and st.value.func.value.id == name:
+                    hit = True
+                if isinstance(st, ast.Assign) and any(isinstance(t, ast.Subscript) and isinstance(t.value, ast.Name) and t.value.id == name for t in st.targets):
+                    hit = True
+                if hit:
+                    out.add((id(node), field))
+    return out
+
+
 def compute_tuple_clause(model, rep, funcs):
     """S1: dask.compute / da.compute return a tuple; every use must subscript or unpack it."""
     n = 0
@@ -242,6 +262,31 @@ def compute_tuple_clause(model, rep, funcs):
                                 ok = False
                                 det = (f"`{norm_src(z)[:70]}` pairs the results of compute(*{src_d}.values()) with the keys of another mapping: images are stored under "
                                        "ids they were not computed for")
+                # results of compute(*L) for a list L filled in a loop: whatever they are zipped with must be filled in lock-step with L (same block, one entry each)
+                if len(st_arg) == 1 and isinstance(st_arg[0], ast.Name):
+                    lname = st_arg[0].id
+                    zips = [z for z in ast.walk(fn.node) if isinstance(z, ast.Call) and dotted(z.func) == "zip" and
+                            any(x is c or (tname is not None and isinstance(x, ast.Name) and x.id == tname) for x in z.args)]
+                    for z in zips:
+                        for x in z.args:
+                            if x is c or (tname is not None and isinstance(x, ast.Name) and x.id == tname):
+                                continue
+                            pn = x.func.value if isinstance(x, ast.Call) and isinstance(x.func, ast.Attribute) and x.func.attr == "keys" and not x.args else x
+                            if not isinstance(pn, ast.Name):
+                                ok = None
+                                det = f"`{norm_src(z)[:70]}`: partner of the computed results is not a plain container"
+                                continue
+                            bl, bp = _fill_blocks(fn.node, lname), _fill_blocks(fn.node, pn.id)
+                            if len(bl) == 1 and len(bp) == 1 and bl == bp:
+                                continue
+                            if len(bl) == 1 and len(bp) == 1:
+                                ok = False
+                                det = (f"`{norm_src(z)[:80]}` pairs result k of compute(*{lname}) with entry k of `{pn.id}`, but `{pn.id}` and `{lname}` are not filled in lock-step "
+                                       f"(`{lname}` gets an entry only under a condition, `{pn.id}` on another path): with a mixed batch the computed images are stored under the ids "
+                                       "of other images")
+                            elif ok:
+                                ok = None
+                                det = f"`{norm_src(z)[:70]}`: cannot establish that `{pn.id}` and `{lname}` are filled in lock-step"
             elif isinstance(parent, ast.Subscript) and parent.value is c:
                 ok = True
             elif isinstance(parent, ast.Assign) and parent.value is c:
